@@ -9,6 +9,7 @@ import WrglModel.Driver.C19
 import WrglModel.Driver.C01
 import WrglModel.Driver.C20
 import WrglModel.Driver.C15
+import WrglModel.Driver.C17
 open Lean Wrgl.Drv
 
 def dispatch (prop op : String) (input impl : Json) : Except String Json :=
@@ -22,6 +23,8 @@ def dispatch (prop op : String) (input impl : Json) : Except String Json :=
   | "C03" => handleC03 op input impl
   | "C20" => handleC20 op input impl
   | "C15" => handleC15 op input impl
+  | "C17" => handleC17 op input impl
+  | "C18" => handleC18 op input impl
   | _ => .error s!"unknown property {prop}"
 
 def handleLine (line : String) : Json :=
